@@ -132,30 +132,26 @@ theorem C14_running_view (p : Pool) (u : Uuid) :
       split <;> simp_all
 
 /-- **A stale probe result is ignored.** If the worker was updated after the probe began (its
-`updated` stamp differs from the one the probe read), applying the probe result changes neither
+`updated` stamp differs from the one the probe read), applying the probe result — to any worker
+whatsoever — changes neither
 `running` nor `starting` and records no exit — whatever the probe saw. -/
 theorem C14_stale_probe_ignored (w : Worker) (p : Probe) (now : Nat)
-    (hidle : w.state = .idle → w.running = [] ∧ w.starting = [])
     (hlt : p.stamp < now) (hstale : p.stamp ≠ w.updated) :
     (w.probeApply p now).1.running = w.running ∧ (w.probeApply p now).1.starting = w.starting ∧
     (w.probeApply p now).2 = [] := by
-  have hnf : Worker.probeFresh w p now = false := by
-    cases h : Worker.probeFresh w p now
-    · rfl
-    · exact absurd (Worker.probeFresh_stamp hlt h).1 hstale
-  obtain ⟨h1, _, _⟩ := Worker.probeApply_spec w p now hidle
-  obtain ⟨a, b, c, _⟩ := h1 hnf
-  exact ⟨a, b, c⟩
+  apply Worker.probeApply_not_fresh
+  cases h : Worker.probeFresh w p now
+  · rfl
+  · exact absurd (Worker.probeFresh_stamp hlt h).1 hstale
 
 /-- In particular a probe that began before a start completed never removes that container from
 `running`: the completion closure (when its runner is still in `starting`) stamps `updated`,
 which makes the probe stale. -/
 theorem C14_start_completion_not_undone (w : Worker) (u : Uuid) (p : Probe) (t1 t2 : Nat)
-    (hstate : w.state ≠ .idle) (hu : u ∈ w.starting) (hbegin : p.stamp = w.updated)
+    (hu : u ∈ w.starting) (hbegin : p.stamp = w.updated)
     (h1 : w.updated < t1) (h2 : t1 < t2) :
     u ∈ ((w.startDone u t1).probeApply p t2).1.running := by
-  have := C14_stale_probe_ignored (w.startDone u t1) p t2
-    (fun h => absurd (by simpa using h) hstate) (by omega)
+  have := C14_stale_probe_ignored (w.startDone u t1) p t2 (by omega)
     (by rw [Worker.startDone_updated]; simp [hu]; omega)
   rw [this.1, Worker.startDone_running]
   exact Or.inr ⟨rfl, hu⟩
